@@ -430,6 +430,15 @@ def execute(cases, deadline, progress):
 
 
 def extra_coverage(cases, results):
+    mc = [dict(program=c["id"], observable=f"{c['kind']}_{c['heavy']}", theory=c["theory"], process=c["obs"]["prDIS"],
+               outcome=(r or {}).get("reason") or ((r or {}).get("sample") or {}).get("valgrind_summary"), reports=((r or {}).get("sample") or {}).get("reports"),
+               wall_s=((r or {}).get("sample") or {}).get("wall_s"))
+          for c, r in zip(cases, results) if c.get("mode") == "memcheck"]  # fmt: skip
+    extra = dict(memcheck=mc) if mc else dict(memcheck="not part of the quick tier (8-15 min per program with a cold numba cache): thorough tier only")
+    return dict(extra, **_extra_programs(cases, results))
+
+
+def _extra_programs(cases, results):
     progs = set()
     for r in results:
         if r and r.get("programs"):
